@@ -43,5 +43,11 @@ Frames == \A o \in BOOLEAN, r \in BOOLEAN :
                                      /\ WindowCall(o, r, <<f, f>>).st # "ok"
 PathNames == {<<"t">>, <<"s", "t">>, <<"d", "s", "t">>, <<"d.x", "s", "t">>, <<"s", "s">>}
 Paths == \A r \in {"kw_obj", "kw_str", "kw_list", "kw_tuple", "attr", "make", "make_al"}, ns \in PathNames, al \in {"", "al"} : PathOK(r, ns, al)
+LoadCalls == {[m |-> "load", v |-> "f1"], [m |-> "load", v |-> "f2"], [m |-> "load", v |-> ""], [m |-> "into", v |-> "t1"], [m |-> "into", v |-> "t2"]}
+LoadHists == UNION {[1..n -> LoadCalls] : n \in 0..4}
+\* every history of <= 4 calls is sane, and calls on different slots commute
+Loads == /\ \A h \in LoadHists : LoadSane(h)
+         /\ \A h \in LoadHists : \A i \in 1..(Len(h) - 1) : h[i].m # h[i + 1].m =>
+                LoadOutcome(h) = LoadOutcome([k \in DOMAIN h |-> IF k = i THEN h[i + 1] ELSE IF k = i + 1 THEN h[i] ELSE h[k]])
 Arity == \A d \in {"none", "0", "1", "2", "3"}, g \in {"0", "1", "2", "3", "4"} : ArityExact(d, g)
 =============================================================================
